@@ -304,3 +304,8 @@ func (db *DB) IndexAudit(table string, col int, what string) {
 	db.Shi.GetTransactionManager().Commit(db.Cat, txn)
 	vf.Cover("index-audit")
 }
+
+// CmpCols: <l> op <r> with a column on both sides (both written qualified).
+func CmpCols(l string, op expression.ComparisonType, r string) *parser.BinaryOpExpression {
+	return &parser.BinaryOpExpression{LogicalOperationType: -1, ComparisonOperationType: op, Left: sp(l), Right: sp(r)}
+}
